@@ -436,7 +436,7 @@ func (e *Engine) chanClose(ch *ChanObj) {
 
 func (e *Engine) chanSend(ch *ChanObj, v Value) {
 	if ch == nil {
-		panic(pathEnd{kind: "blocked", msg: "send on nil channel"})
+		e.block("send on nil channel")
 	}
 	if ch.closed {
 		e.vc(e.ts.True, "send on closed channel")
@@ -446,12 +446,15 @@ func (e *Engine) chanSend(ch *ChanObj, v Value) {
 		ch.buf = append(ch.buf, v)
 		return
 	}
-	panic(pathEnd{kind: "blocked", msg: "send on full channel"})
+	e.block("send on full channel")
 }
 
 func (e *Engine) chanRecv(ch *ChanObj) (Value, bool) {
 	if ch == nil || ch.never {
-		panic(pathEnd{kind: "blocked", msg: "receive on nil/never channel"})
+		e.block("receive on nil/never channel")
+	}
+	if ch.timer != nil && len(ch.buf) == 0 && ch.timer.timerArmed {
+		e.fireTimer(ch)
 	}
 	if len(ch.buf) > 0 {
 		v := ch.buf[0]
@@ -461,7 +464,8 @@ func (e *Engine) chanRecv(ch *ChanObj) (Value, bool) {
 	if ch.closed {
 		return e.zero(ch.elemT), false
 	}
-	panic(pathEnd{kind: "blocked", msg: "receive on empty channel"})
+	e.block("receive on empty channel")
+	panic("unreachable")
 }
 
 func (e *Engine) selectOp(fr *Frame, x *ssa.Select) Value {
@@ -472,6 +476,7 @@ func (e *Engine) selectOp(fr *Frame, x *ssa.Select) Value {
 	}
 	var states []st
 	var ready []int
+	var timers []int // receive cases on the channel of an armed timer that has not fired yet
 	for i, s := range x.States {
 		ch, _ := e.get(fr, s.Chan).(*ChanObj)
 		cur := st{ch: ch, send: s.Dir == types.SendOnly}
@@ -488,7 +493,15 @@ func (e *Engine) selectOp(fr *Frame, x *ssa.Select) Value {
 			}
 		} else if len(ch.buf) > 0 || ch.closed {
 			ready = append(ready, i)
+		} else if ch.timer != nil && ch.timer.timerArmed {
+			timers = append(timers, i)
 		}
+	}
+	if len(ready) == 0 && x.Blocking && len(timers) > 0 {
+		// nothing else can make progress in the sequential execution: time passes until the
+		// first timer expires (the earliest case in source order stands for it)
+		e.fireTimer(states[timers[0]].ch)
+		ready = append(ready, timers[0])
 	}
 	idx := -1
 	switch {
@@ -504,7 +517,7 @@ func (e *Engine) selectOp(fr *Frame, x *ssa.Select) Value {
 	case !x.Blocking:
 		idx = -1
 	default:
-		panic(pathEnd{kind: "blocked", msg: "select with no ready case"})
+		e.block("select with no ready case")
 	}
 	res := TupleV{e.intConst(idx), e.ts.False}
 	// receive values for all recv states in order
